@@ -297,7 +297,12 @@ def check_base58(ctx, o=lambda k: "C07.%d" % k):
             okt = okt and any(any(tm.veq(f, q) for q in eq_forms) for f in l.facts) and not any(isinstance(f, T) and f.op == "except" for f in l.facts)
         elif isinstance(l.value, T):  # the verdict is a boolean term: it must be the checksum comparison itself
             n_true += 1
-            okt = okt and any(tm.veq(l.value, q) for q in eq_forms) and not any(isinstance(f, T) and f.op == "except" for f in l.facts)
+            conj = list(l.value.args) if l.value.op == "land" else [l.value]
+            is_noexc = lambda c_: isinstance(c_, T) and c_.op == "not" and isinstance(c_.args[0], T) and c_.args[0].op == "except"  # noqa: E731
+            # the comparison itself, possibly conjoined with "and nothing was caught" (a helper that answers
+            # `try: check(x) / except Exception: return False / return True` merged into one boolean)
+            okt = okt and sum(1 for c_ in conj if any(tm.veq(c_, q) for q in eq_forms)) == 1 and all(any(tm.veq(c_, q) for q in eq_forms) or is_noexc(c_) for c_ in conj) and \
+                not any(isinstance(f, T) and f.op == "except" for f in l.facts)
     R.check(o(4), "DOM", fi, "True only when the last four decoded bytes equal SHA256d(payload)[:4]", okt and n_true >= 1,
             "is_base58check answers True without the checksum comparison holding", example="a string with a corrupted checksum")
 
